@@ -180,17 +180,43 @@ def r2_components(ctx, g, handlers):
                 ctx.violation('R2', at, h.qualname, f'component-dropped:{rule}.{child}',
                               f'grammar rule `{rule}` allows a `{child}` child but exit{rule[0].upper() + rule[1:]} neither reads ctx.{child}() nor '
                               f'consumes what a handler below `{child}` produces: that part of the cell is lost on export')
-    # per-element capture: one dot sub-token per augmentationDot
+    # per-element capture: one dot sub-token per augmentationDot (what the list holds at the end of every path)
     ed = handlers['duration']['exit']
-    dots = [n for n in walk_local(ed.node) if isinstance(n, ast.For) and 'ctx.augmentationDot()' in src(n.iter)]
-    okd = len(dots) == 1 and any(isinstance(x, ast.Call) and src(x.func) == 'self.duration_subtokens.append' for x in ast.walk(dots[0])) \
-        and src(dots[0].iter) in ('range(len(ctx.augmentationDot()))', 'ctx.augmentationDot()')
-    ctx.check(okd, 'R2', ed.loc, ed.qualname, 'one-subtoken-per-dot', 'one duration sub-token per augmentation dot')
+    okd = True
+    n_paths = 0
+    for cond, items, sp in F.list_content(ed, 'self.duration_subtokens'):
+        n_paths += 1
+        dots = [it for it in items if it[0] == 'many' and src(it[1]) == "Subtoken('.', TokenCategory.DURATION)" and not it[3]
+                and src(it[2]) in ('range(len(ctx.augmentationDot()))', 'ctx.augmentationDot()')]
+        others = [it for it in items if it[0] in ('many', 'unknown', 'copy') and it not in dots]
+        okd = okd and len(dots) == 1 and not others
+    ctx.check(okd and n_paths > 0, 'R2', ed.loc, ed.qualname, 'one-subtoken-per-dot', 'one duration sub-token per augmentation dot')
     # the alteration is appended when present; the pitch always
     en = handlers['note']['exit']
-    oka = any(isinstance(n, ast.If) and src(n.test) == 'ctx.alteration()' and
-              any('ALTERATION' in src(x) and 'ctx.alteration().getText()' in src(x) for x in ast.walk(n)) for n in walk_local(en.node))
-    ctx.check(oka, 'R2', en.loc, en.qualname, 'alteration-captured', 'a note keeps its accidental as an ALTERATION sub-token with the text as written')
+    oka = True
+    n_alt = 0
+    calls = [c for c in walk_local(en.node) if isinstance(c, ast.Call) and src(c.func) == 'self.addNoteRest' and len(c.args) == 2]
+    recv = src(calls[0].args[1]) if len(calls) == 1 and isinstance(calls[0].args[1], (ast.Name, ast.Attribute)) else None
+    if recv is None:
+        oka = False
+    else:
+        for cond, items, sp in F.list_content(en, recv):
+            alts = [it for it in items if it[0] == 'one' and src(it[1]) == 'Subtoken(ctx.alteration().getText(), TokenCategory.ALTERATION)']
+            present = {src(n_): t for n_, t in sp.conds}.get('ctx.alteration()')
+            if present is None:
+                present = not {src(n_): t for n_, t in sp.conds}.get('ctx.alteration() is None', True) if 'ctx.alteration() is None' in {src(n_) for n_, _ in sp.conds} else None
+            if present is True:
+                n_alt += 1
+                oka = oka and len(alts) == 1
+            elif present is False:
+                oka = oka and not alts
+            else:
+                oka = False
+            pitch = [it for it in items if it[0] == 'one' and src(it[1]) == 'self.diatonic_pitch_and_octave_subtoken']
+            dur = [it for it in items if it[0] == 'copy' and src(it[1]) == 'self.duration_subtokens']
+            oka = oka and len(pitch) == 1 and len(dur) == 1
+    ctx.check(oka and n_alt > 0, 'R2', en.loc, en.qualname, 'alteration-captured',
+              'a note keeps its duration, its pitch and - when written - its accidental as an ALTERATION sub-token with the text as written')
     # barline: pieces kept
     eb = handlers.get('barline', {}).get('exit')
     if eb is None:
